@@ -142,6 +142,10 @@ func init() {
 		"if len(assignableValidators) == 0 {", "if len(assignableValidators) == 0 && req != nil {",
 		"PickValidatorForMessage|div"})
 
+	addMutant(Mutant{"C09-attester-dispatch-swapped", "C09", "x/evm/keeper/attest.go",
+		"return newCompassHandoverAttester(&k, logger, params).Execute(sdkCtx)\n\t}", "return newCompassHandoverAttester(&k, logger, params).Execute(sdkCtx)\n\tdefault:\n\t\treturn newSubmitLogicCallAttester(&k, logger, params).Execute(sdkCtx)\n\t}",
+		"submitLogicCallAttester).Execute|assert"})
+
 	// ---- C10
 	addMutant(Mutant{"C10-unbonded-admitted", "C10", "x/valset/keeper/keeper.go",
 		"if val.IsBonded() && !val.IsJailed() && k.ValidatorSupportsAllChains(ctx, bz) {", "if !val.IsJailed() && k.ValidatorSupportsAllChains(ctx, bz) {",
